@@ -866,7 +866,7 @@ def make_run(prop, bias, scenario_filter=None, quick_cases=1280, thorough_cases=
         if enumerate_failures:
             # enumerated, not sampled: every test of the scenario failing persistently, with and without retries
             # (quick: the shard's first scenario only)
-            names = sorted(mine)[:1] if ctx.tier == "quick" else sorted(mine)
+            names = sorted(mine)[:1] if ctx.tier == "quick" else sorted(mine)[:4]
             for name in names:
                 scenario = mine[name]
                 info = scenario_info(scenario)
